@@ -28,6 +28,8 @@ func Main(args []string) int {
 		return runC13(cfg, rest)
 	case "C18":
 		return runC18(cfg, rest)
+	case "C19":
+		return runC19(cfg, rest)
 	case "GENSTAT":
 		return runGenStat(cfg, rest)
 	}
